@@ -145,7 +145,25 @@ class SDict:
         return self.e[keyname(k)][1]
 
 
-def v_dict(*a, **kw):
+class _VDictMeta(type):
+    """`dict` inside the shadow modules: callable like the builtin (with the symbolic cases below) and usable as the second argument of
+    isinstance / issubclass"""
+
+    def __call__(cls, *a, **kw):
+        return _v_dict(*a, **kw)
+
+    def __instancecheck__(cls, obj):
+        return isinstance(obj, (dict, SDict))
+
+    def __subclasscheck__(cls, sub):
+        return issubclass(sub, (dict, SDict))
+
+
+class v_dict(metaclass=_VDictMeta):
+    pass
+
+
+def _v_dict(*a, **kw):
     """Shim for the builtin `dict`."""
     if len(a) == 1 and isinstance(a[0], SDict) and not kw:
         return a[0].copy()
